@@ -39,18 +39,28 @@ def main():
     if d0 != d0b or trace != trace_b:
         print("selftest: default schedule not deterministic")
         return 2
-    # one recorded deviating schedule
+    # recorded deviating schedules: each must replay identically, and at least one of them must change what is
+    # observed (otherwise the choice points would not be steering anything)
     idx = [i for i, (k, n, c) in enumerate(trace) if n > 1]
     if len(idx) < 4:
         print("selftest: too few choice points", len(idx))
         return 2
-    i1 = idx[len(idx) // 3]
-    pre = list(trace[:i1]) + [(trace[i1][0], trace[i1][1], 1)]
-    d1, t1, _, _, _ = _observe(pre)
-    d1b, t1b, _, _, _ = _observe(pre)
-    if d1 != d1b or t1 != t1b:
-        print("selftest: recorded schedule did not replay identically")
+    distinct = 0
+    d1 = d0
+    for frac in (8, 5, 3, 2):
+        i1 = idx[len(idx) // frac]
+        pre = list(trace[:i1]) + [(trace[i1][0], trace[i1][1], trace[i1][1] - 1)]
+        d1, t1, _, _, ok1 = _observe(pre)
+        d1b, t1b, _, _, _ = _observe(pre)
+        if d1 != d1b or t1 != t1b:
+            print("selftest: recorded schedule did not replay identically")
+            return 2
+        if d1 != d0:
+            distinct += 1
+    if distinct == 0:
+        print("selftest: no deviation changed the observations - choice points are not steering the execution")
         return 2
+    i1 = idx[len(idx) // 3]
     # divergence must be loud
     bad = list(trace[:i1]) + [(trace[i1][0], trace[i1][1] + 7, 1)]
     try:
@@ -61,6 +71,7 @@ def main():
         pass
     print(
         f"selftest ok: baseline {len(trace)} choice points, default digest {d0[:10]}, "
-        f"deviating digest {d1[:10]} (replayed twice), divergence detected, leftover tasks {left}"
+        f"{distinct}/4 deviating schedules changed the observations (each replayed twice identically), "
+        f"divergence detected, leftover tasks {left}"
     )
     return 0
